@@ -229,7 +229,71 @@ func genRegex(p *pkgInfo) *leanFile {
 		f.pf("%s", leanChars(g))
 	}
 	f.pf("]\n\n")
-	f.pf("/-- Operators demanded by `matchExactRegex`: of the whole expression, of its first and of its last sub-expression. -/\ndef exactTopOp : Nat := %d\ndef exactStartOp : Nat := %d\ndef exactEndOp : Nat := %d\n", consts["re.Op"], consts["start.Op"], consts["end.Op"])
+	f.pf("/-- Operators demanded by `matchExactRegex`: of the whole expression, of its first and of its last sub-expression. -/\ndef exactTopOp : Nat := %d\ndef exactStartOp : Nat := %d\ndef exactEndOp : Nat := %d\n\n", consts["re.Op"], consts["start.Op"], consts["end.Op"])
+
+	// ---- RewriteRegexConditions: which operators replace which ----
+	fr := p.fn("SelectStatement.RewriteRegexConditions")
+	var guardCond string
+	var opIf *ast.IfStmt
+	var lenCases []string
+	ast.Inspect(fr.Body, func(n ast.Node) bool {
+		switch s := n.(type) {
+		case *ast.IfStmt:
+			c := p.text(s.Cond)
+			if strings.Contains(c, "be.Op != EQREGEX") {
+				guardCond = c
+			}
+			if c == "be.Op == EQREGEX" {
+				opIf = s
+			}
+		case *ast.SwitchStmt:
+			if s.Tag == nil {
+				for _, c := range s.Body.List {
+					cc := c.(*ast.CaseClause)
+					if cc.List == nil {
+						lenCases = append(lenCases, "default")
+					} else {
+						lenCases = append(lenCases, p.text(cc.List[0]))
+					}
+				}
+			}
+		}
+		return true
+	})
+	if guardCond != "!ok || (be.Op != EQREGEX && be.Op != NEQREGEX)" {
+		fail("RewriteRegexConditions: unknown operator guard %q", guardCond)
+	}
+	if opIf == nil || opIf.Else == nil {
+		fail("RewriteRegexConditions: `if be.Op == EQREGEX { … } else { … }` not found")
+	}
+	branch := func(b *ast.BlockStmt) (int64, int64) {
+		if len(b.List) != 2 {
+			fail("RewriteRegexConditions: operator branch has %d statements", len(b.List))
+		}
+		var vals [2]int64
+		for i, want := range []string{"be.Op", "concatOp"} {
+			as, ok := b.List[i].(*ast.AssignStmt)
+			if !ok || len(as.Lhs) != 1 || p.text(as.Lhs[0]) != want || as.Tok != token.ASSIGN {
+				fail("RewriteRegexConditions: expected assignment to %s", want)
+			}
+			v, ok := p.constInt(as.Rhs[0])
+			if !ok {
+				fail("RewriteRegexConditions: %s is not constant", p.text(as.Rhs[0]))
+			}
+			vals[i] = v
+		}
+		return vals[0], vals[1]
+	}
+	eb, ok := opIf.Else.(*ast.BlockStmt)
+	if !ok {
+		fail("RewriteRegexConditions: else branch is not a block")
+	}
+	o1, c1 := branch(opIf.Body)
+	o2, c2 := branch(eb)
+	if strings.Join(lenCases, ";") != "len(vals) == 0;len(vals) == 1;default" {
+		fail("RewriteRegexConditions: unknown switch on the number of literals: %v", lenCases)
+	}
+	f.pf("/-- `RewriteRegexConditions`: (comparison, connective) substituted for `=~` and for `!~` (token numbers);\nthe switch on `len(vals)` has the cases 0, 1, default (checked by the extractor). -/\ndef rewriteOps : List (Nat × Nat) := [(%d, %d), (%d, %d)]\n", o1, c1, o2, c2)
 	return f
 }
 
